@@ -570,4 +570,225 @@ Proof.
   match goal with E : get_file _ _ = Some _ |- _ => rewrite E end. reflexivity.
 Qed.
 
+(* ---- crash anywhere: one writer killed after any number of its steps, then a lookup ---- *)
+Definition label_puts (l : label) : list (list N * list N) :=
+  match l with LSpawn (OpPut k x) => [(k, x)] | _ => [] end.
+
+Lemma step_stored : forall s l s', step H s l = Some s' -> st_stored s' = label_puts l ++ st_stored s.
+Proof.
+  intros s l s' Hs. destruct l; cbn [step] in Hs.
+  - destruct (spawn_pc o); [| discriminate]. inversion Hs; subst. cbn [st_stored label_puts]. destruct o; reflexivity.
+  - destruct (nth_error (st_procs s) p); [| discriminate]. destruct (pstep H c (st_fs s) p0) as [[fs' pc'] |]; [| discriminate].
+    inversion Hs; subst. reflexivity.
+  - destruct (nth_error (st_procs s) p); [| discriminate]. inversion Hs; subst. reflexivity.
+  - unfold ext_trunc in Hs. destruct (lookup p (names (st_fs s))); [| discriminate].
+    destruct (get_file (st_fs s) n0); [| discriminate].
+    destruct ((n <=? length (fdata f))%nat && (negb true || quiescent (st_procs s) n0)); [| discriminate].
+    inversion Hs; subst. reflexivity.
+  - unfold ext_trunc in Hs. destruct (lookup p (names (st_fs s))); [| discriminate].
+    destruct (get_file (st_fs s) n0); [| discriminate].
+    destruct ((n <=? length (fdata f))%nat && (negb false || quiescent (st_procs s) n0)); [| discriminate].
+    inversion Hs; subst. reflexivity.
+  - inversion Hs; subst. reflexivity.
+  - inversion Hs; subst. reflexivity.
+  - inversion Hs; subst. reflexivity.
+Qed.
+
+Lemma exec_stored_in : forall ls s s' e, exec H s ls = Some s' -> In e (st_stored s') ->
+  In e (st_stored s) \/ In e (flat_map label_puts ls).
+Proof.
+  induction ls; intros s s' e He Hin; cbn [exec] in He.
+  - inversion He; subst. auto.
+  - destruct (step H s a) as [s1 |] eqn:Es; [| discriminate].
+    destruct (IHls s1 s' e He Hin) as [H1 | H1].
+    + rewrite (step_stored s a s1 Es) in H1. apply in_app_or in H1. destruct H1; auto.
+      right. cbn [flat_map]. apply in_or_app. auto.
+    + right. cbn [flat_map]. apply in_or_app. auto.
+Qed.
+
+Lemma steps_ok : forall p cs, forallb label_ok (map (LStep p) cs) = true.
+Proof. induction cs; cbn; auto. Qed.
+Lemma steps_puts : forall p cs, flat_map label_puts (map (LStep p) cs) = [].
+Proof. induction cs; cbn; auto. Qed.
+
+Definition single_sound (k x : list N) (r : result) : Prop :=
+  match r with
+  | RFile k' o sz snap => k' = k /\ o = H x /\ sz = xsize x /\ snap = Some x
+  | RBytes k' b => k' = k /\ b = x
+  | RGet k' o sz _ => k' = k /\ o = H x /\ sz = xsize x
+  | _ => True
+  end.
+
+Theorem crash_anywhere_proof : forall k x cs cs' o s r,
+  (forall y, H y = H x -> y = x) ->
+  match o with OpPut _ _ => False | _ => True end ->
+  exec H init_state (LSpawn (OpPut k x) :: map (LStep 0) cs ++ LCrash 0 :: LSpawn o :: map (LStep 1) cs') = Some s ->
+  nth_error (st_procs s) 1 = Some (PDone r) ->
+  single_sound k x r.
+Proof.
+  intros k x cs cs' o s r Hcf1 Ho He Hn.
+  assert (Hst : forall e, In e (st_stored s) -> e = (k, x)).
+  { intros e Hin. destruct (exec_stored_in _ _ _ e He Hin) as [H1 | H1]; [destruct H1 |].
+    cbn [flat_map label_puts] in H1. rewrite flat_map_app, steps_puts in H1. cbn [flat_map label_puts app] in H1.
+    rewrite steps_puts in H1. destruct o; try contradiction; cbn in H1; destruct H1 as [H1 | H1]; auto; contradiction. }
+  assert (Hcf : H_cf_on (st_stored s)).
+  { intros x0 y Hx0 Hy. unfold contents in Hx0. apply in_map_iff in Hx0. destruct Hx0 as ([k0 x1] & E & Hin).
+    cbn in E. subst x1. apply Hst in Hin. inversion Hin; subst. auto. }
+  assert (Hok : forallb label_ok (LSpawn (OpPut k x) :: map (LStep 0) cs ++ LCrash 0 :: LSpawn o :: map (LStep 1) cs') = true).
+  { cbn [forallb label_ok andb]. rewrite forallb_app, steps_ok. cbn [forallb label_ok andb]. apply steps_ok. }
+  pose proof (inv_exec _ _ _ inv_init Hok He Hcf) as Hinv.
+  pose proof (done_result_ok s 1 r Hinv Hn) as Hr.
+  destruct r; cbn [result_ok single_sound] in *; auto.
+  - destruct Hr as (x0 & Hin & E1 & E2). apply Hst in Hin. inversion Hin; subst. auto.
+  - destruct Hr as (x0 & Hin & E1 & E2 & E3). apply Hst in Hin. inversion Hin; subst. auto.
+  - apply Hst in Hr. inversion Hr; subst. auto.
+Qed.
+
+(* ---- re-putting the same content never un-commits a committed entry ---- *)
+Definition committed (fs : fsys) (k x : list N) : Prop :=
+  (exists e tm, read_path fs (FA k) = Some e /\ parse_entry k e = Some (H x, xsize x, tm)) /\
+  read_path fs (FD (H x)) = Some x.
+
+Definition put_content (c : pc) : option (list N) :=
+  match c with
+  | PPutStat _ x | PPutVOpen _ x _ | PPutVRead _ x _ _ _ _ | PPutOpen _ x _ | PPutCopy _ x _ _ | PPutClose _ x _
+  | PPutChtimes _ x | PPutIdxOpen _ x | PPutIdxWrite _ x _ | PPutIdxTrunc _ x _ | PPutIdxClose _ x _
+  | PPutIdxChtimes _ x => Some x
+  | _ => None
+  end.
+
+Definition keeps (fs fs' : fsys) : Prop := forall q d, read_path fs q = Some d -> read_path fs' q = Some d.
+
+Lemma committed_keeps : forall fs fs' k x, keeps fs fs' -> committed fs k x -> committed fs' k x.
+Proof. intros fs fs' k x Hk ((e & tm & H1 & H2) & H3). split; [exists e, tm; auto | auto]. Qed.
+
+Lemma keeps_refl : forall fs, keeps fs fs.
+Proof. intros fs q d Hq. auto. Qed.
+
+Lemma read_path_set_file : forall fs i f f' q, get_file fs i = Some f ->
+  read_path (set_file fs i f') q =
+  match lookup q (names fs) with
+  | Some j => if Nat.eqb j i then Some (fdata f') else option_map fdata (get_file fs j)
+  | None => None
+  end.
+Proof.
+  intros fs i f f' q Hg. unfold read_path. cbn [set_file names].
+  destruct (lookup q (names fs)) as [j |]; auto.
+  destruct (Nat.eqb j i) eqn:E.
+  - apply Nat.eqb_eq in E. subst. rewrite (get_file_set_eq _ _ _ _ Hg). reflexivity.
+  - apply Nat.eqb_neq in E. rewrite get_file_set_neq by auto. reflexivity.
+Qed.
+
+Lemma keeps_same_data : forall fs i f f', get_file fs i = Some f -> fdata f' = fdata f -> keeps fs (set_file fs i f').
+Proof.
+  intros fs i f f' Hg Hd q d Hq. rewrite (read_path_set_file fs i f f' q Hg). unfold read_path in Hq.
+  destruct (lookup q (names fs)) as [j |]; [| discriminate].
+  destruct (Nat.eqb j i) eqn:E; auto. apply Nat.eqb_eq in E. subst. rewrite Hg in Hq. cbn in Hq. congruence.
+Qed.
+
+Lemma keeps_touched : forall fs fs', touched fs fs' -> keeps fs fs'.
+Proof.
+  intros fs fs' [-> | (i & f & t & Hg & ->)]; [apply keeps_refl |]. eapply keeps_same_data; eauto.
+Qed.
+
+Lemma keeps_open_create : forall fs p now fs' i, open_create fs p now = (fs', i) -> keeps fs fs'.
+Proof.
+  intros fs p now fs' i Hoc. unfold open_create in Hoc. destruct (lookup p (names fs)) as [i0 |] eqn:El.
+  - inversion Hoc; subst. apply keeps_refl.
+  - inversion Hoc; subst. intros q d Hq. unfold read_path in *. cbn [names lookup].
+    destruct (path_eqb p q) eqn:E.
+    + apply path_eqb_eq in E. subst. rewrite El in Hq. discriminate.
+    + destruct (lookup q (names fs)) as [j |]; [| discriminate].
+      unfold get_file in *. cbn [inodes]. destruct (nth_error (inodes fs) j) eqn:En; [| discriminate].
+      rewrite nth_error_app1; [rewrite En; auto |]. apply nth_error_Some. congruence.
+Qed.
+
+Lemma read_path_lookup : forall fs q d, read_path fs q = Some d ->
+  exists j f, lookup q (names fs) = Some j /\ get_file fs j = Some f /\ fdata f = d.
+Proof.
+  intros fs q d Hq. unfold read_path in Hq. destruct (lookup q (names fs)) as [j |]; [| discriminate].
+  destruct (get_file fs j) as [f |] eqn:Eg; [| discriminate]. cbn in Hq. inversion Hq. exists j, f. auto.
+Qed.
+
+Theorem same_content_idempotent_proof : forall s p c s' pcv k x,
+  Inv s -> H_cf_on (st_stored s) -> committed (st_fs s) k x ->
+  nth_error (st_procs s) p = Some pcv -> put_content pcv = Some x ->
+  step H s (LStep p c) = Some s' -> committed (st_fs s') k x.
+Proof.
+  intros s p c s' pcv k x (Hn & Hf & HP) Hcf Hc Hnth Hpc Hs.
+  pose proof (H_cf_inj _ Hcf) as Hinj.
+  destruct s as [fs procs st]. cbn [st_fs st_procs st_stored step] in *.
+  rewrite Hnth in Hs. destruct (pstep H c fs pcv) as [[fs' pc'] |] eqn:Ep; [| discriminate].
+  inversion Hs; subst. clear Hs. cbn [st_fs].
+  assert (Hpok : proc_ok fs st pcv). { rewrite Forall_forall in HP. apply HP. eapply nth_error_In; eauto. }
+  destruct pcv; cbn [put_content] in Hpc; try discriminate; inversion Hpc; subst; unfold pstep in Ep; cbn [proc_ok] in Hpok.
+  - (* PPutStat *)
+    destruct (lookup (FD (H x)) (names fs)); [destruct (get_file fs n); [destruct (fsize f =? xsize x) |] |]; inversion Ep; subst; auto.
+  - destruct (lookup (FD (H x)) (names fs)); inversion Ep; subst; auto.
+  - destruct (get_file fs i); [| discriminate]. destruct (c_n c); [discriminate |].
+    destruct (firstn (S n) (skipn off (fdata f))); [destruct (bytes_eqb (H buf) (H x)) |]; inversion Ep; subst; auto.
+  - (* PPutOpen: no O_TRUNC *)
+    destruct Hpok as [Hput Hst].
+    assert (Ht : match st0 with Some sz => xsize x <? sz | None => false end = false).
+    { destruct st0 as [sz |]; auto. apply N.ltb_ge. auto. }
+    rewrite Ht in Ep. destruct (open_create fs (FD (H x)) (c_now c)) as [fs1 i] eqn:Hoc.
+    pose proof (keeps_open_create _ _ _ _ _ Hoc) as Hk.
+    destruct x; inversion Ep; subst; eapply committed_keeps; eauto.
+  - (* PPutCopy: writes the bytes that are already there *)
+    destruct Hpok as (Hput & (f & Hg & Ho & Hoff) & Hlast & Hne).
+    destruct Hc as (Ha & Hd).
+    assert (Hkeep : forall ch n, ch = firstn n (skipn off x) -> (off + n <= length x)%nat ->
+                     keeps fs (set_file fs i (mkFile (write_at (fdata f) off ch) (c_now c) (fowner f)))).
+    { intros ch n -> Hle q d Hq. rewrite (read_path_set_file fs i f _ q Hg).
+      destruct (read_path_lookup fs q d Hq) as (j & g & Hl & Hgj & Hdj). rewrite Hl.
+      destruct (Nat.eqb j i) eqn:E; [| rewrite Hgj; cbn; congruence].
+      apply Nat.eqb_eq in E. subst j. assert (g = f) by congruence. subst g.
+      destruct (Hn q i Hl) as (f0 & Hf0 & Hq0). assert (f0 = f) by congruence. subst f0.
+      assert (Eq : q = FD (H x)) by congruence. rewrite Eq in Hq. rewrite Hd in Hq.
+      assert (Edx : d = x) by congruence. cbn [fdata]. rewrite Hdj, Edx. f_equal.
+      replace x with (firstn (length x) x) at 1 by apply firstn_all.
+      rewrite write_at_firstn by lia. rewrite Nat.max_l by lia. apply firstn_all. }
+    unfold fs_write in Ep. rewrite Hg in Ep.
+    assert (Hlx : (1 <= length x)%nat) by (destruct x; [contradiction | cbn; lia]).
+    destruct (off <? length x - 1)%nat eqn:El.
+    + apply Nat.ltb_lt in El. destruct (c_n c) as [| n'] eqn:En; [discriminate |].
+      injection Ep as E1 _. rewrite <- E1.
+      eapply committed_keeps; [eapply Hkeep; [reflexivity | destruct (length x - 1 - off)%nat eqn:Em; lia] | split; auto].
+    + apply Nat.ltb_ge in El. injection Ep as E1 _. rewrite <- E1.
+      eapply committed_keeps; [eapply (Hkeep _ 1%nat); [reflexivity | lia] | split; auto].
+  - inversion Ep; subst; auto.
+  - inversion Ep; subst. eapply committed_keeps; [apply keeps_touched; apply chtimes_touched | auto].
+  - (* PPutIdxOpen *)
+    destruct (open_create fs (FA k0) (c_now c)) as [fs1 j] eqn:Hoc. inversion Ep; subst.
+    eapply committed_keeps; [eapply keeps_open_create; eauto | auto].
+  - (* PPutIdxWrite: the same (output id, size) is written again *)
+    destruct Hpok as [Hput (f & Hg & Ho)]. pose proof Hput as (Hin & Hw & Hsz).
+    destruct (max_int64 <? c_t c) eqn:Et; [discriminate |]. apply N.ltb_ge in Et.
+    unfold fs_write in Ep. rewrite Hg in Ep. inversion Ep; subst fs' pc'. clear Ep.
+    pose proof (afile_short fs st k0 j f Hf Hg Ho) as Hshort.
+    assert (Hle : length (format_entry k0 (H x) (xsize x) (c_t c)) = entry_size) by (apply format_entry_length; auto).
+    rewrite write_at_cover by lia.
+    destruct Hc as ((e & tm & Ha & Hpa) & Hd). split.
+    + rewrite (read_path_set_file fs j f _ (FA k) Hg).
+      destruct (read_path_lookup fs _ _ Ha) as (j1 & g & Hl & Hgj & Hdj). rewrite Hl.
+      destruct (Nat.eqb j1 j) eqn:E.
+      * apply Nat.eqb_eq in E. subst j1. destruct (Hn _ _ Hl) as (f0 & Hf0 & Hq0). assert (f0 = f) by congruence. subst f0.
+        assert (k0 = k) by congruence. subst k0.
+        exists (format_entry k (H x) (xsize x) (c_t c)), (c_t c). split; [reflexivity |].
+        apply parse_format_proof; auto.
+      * exists e, tm. rewrite Hgj. cbn. split; [congruence | auto].
+    + rewrite (read_path_set_file fs j f _ (FD (H x)) Hg).
+      destruct (read_path_lookup fs _ _ Hd) as (j1 & g & Hl & Hgj & Hdj). rewrite Hl.
+      destruct (Nat.eqb j1 j) eqn:E; [| rewrite Hgj; cbn; congruence].
+      apply Nat.eqb_eq in E. subst j1. destruct (Hn _ _ Hl) as (f0 & Hf0 & Hq0). congruence.
+  - (* PPutIdxTrunc: no-op *)
+    destruct Hpok as [Hput (f & Hg & Ho & Hl)].
+    unfold fs_ftrunc in Ep. rewrite Hg in Ep. inversion Ep; subst fs' pc'. clear Ep.
+    pose proof (afile_short fs st k0 j f Hf Hg Ho) as Hshort.
+    assert (Hlen : entry_size = length (fdata f)) by lia. rewrite Hlen, ftrunc_id.
+    eapply committed_keeps; [eapply keeps_same_data; eauto | auto].
+  - inversion Ep; subst; auto.
+  - inversion Ep; subst. eapply committed_keeps; [apply keeps_touched; apply chtimes_touched | auto].
+Qed.
+
 End WithH.
